@@ -12,6 +12,7 @@ Fails(ln) ==
   (IF ln.out = "error" /\ ~IsDeliberate(ln) THEN {"escapes_with_internal_error_type"} ELSE {})
   \cup (IF ln.out = "kdf_budget" \/ ln.kdf > 4 * KdfBudget THEN {"bounded_number_of_key_derivation_steps"} ELSE {})
   \cup (IF ln.out = "step_budget" \/ (ln.steps > 0 /\ ln.steps > StepBudget(ln.len)) THEN {"parser_work_proportional_to_input_size"} ELSE {})
+  \cup (IF ln.memk > MemBudgetK(ln.len) THEN {"memory_proportional_to_input_size"} ELSE {})
   \cup (IF ln.out \notin {"return", "needs_network", "error", "kdf_budget", "step_budget"} THEN {"MACHINERY_unknown_outcome"} ELSE {})
 Drift(ln) == ln.predicted # "" /\ ln.out = "error" /\ IsDeliberate(ln) /\ ln.excBase # ln.predicted
 KdfDrift(ln) == ln.kdf > KdfBudget /\ ln.kdf <= 4 * KdfBudget
